@@ -508,6 +508,20 @@ def r_chase_calls(cx):
         tried = any((tt.get("callee") or "").endswith("Try::branch") and
                     mir.strip_refs(f.arg_terms(b2)[0])[0] == "call" and mir.strip_refs(f.arg_terms(b2)[0])[3] == bb
                     for b2, tt in f.calls())
+        # caller values reach every step of a macro body however the step spells its parameters: the look-up is made
+        # whether or not the step itself mentions the key
+        import guards as _g
+        gated = False
+        for at, tv in _g.branch_facts(f, bb):
+            at = mir.strip_refs(at)
+            if at[0] == "call" and isinstance(at[1], str) and at[1].rsplit("::", 1)[-1] in ("contains_key", "contains") and "BTreeMap" in at[1]:
+                recv = mir.strip_refs(at[2][0]) if at[2] else ("unknown",)
+                if recv[0] == "call" and isinstance(recv[1], str) and recv[1].endswith("split_into_parameters"):
+                    gated = True
+        cx.ob("R-CHASE-CALLS", "new/chase%d/not-gated-by-locals" % (n - 1), not gated,
+              "the look-up is made whether or not the step mentions the key" if not gated else
+              "ParsedParameters::new looks this parameter up only when the step's own text mentions the key: a value (a flag) given "
+              "on the macro invocation never reaches the steps of the body", cx.where(t["span"]))
         cx.ob("R-CHASE-CALLS", "new/chase%d/error-propagated" % (n - 1), tried,
               "the error of this look-up is handed on with `?`" if tried else
               "ParsedParameters::new discards the error of a chase(..): a `$name` that the caller did not supply is no longer "
@@ -903,6 +917,7 @@ def r_forward_self(cx):
             src = f.local_value(src[2], f.end_point(bb))
         filtered = []
         consults = []
+        names_only = []
 
         def vis(y):
             clos = None
@@ -929,6 +944,10 @@ def r_forward_self(cx):
                                 filtered.append(1)
                         if (gg.callee(t2) or "").rsplit("::", 1)[-1] in ("contains_key", "get") and "BTreeMap" in (gg.callee(t2) or ""):
                             consults.append(1)
+                        if (gg.callee(t2) or "").rsplit("::", 1)[-1] in ("split", "split_once", "find", "splitn", "strip_suffix", "trim_end_matches"):
+                            a3 = gg.arg_terms(b2)
+                            if len(a3) > 1 and mir.strip_refs(a3[-1])[0] == "const" and "(" in str(mir.strip_refs(a3[-1])[2]):
+                                names_only.append(1)
             return True
         mir.walk(src, vis)
         ok = bool(filtered)
@@ -939,6 +958,11 @@ def r_forward_self(cx):
               "argument forwarded under its own name (`inner:m a=$a`) replaces the caller's `a` by a reference to itself, "
               "and the nested macro reports `'a' not found`", cx.where(t["span"]))
         if ok:
+            cx.ob("R-FORWARD-SELF", "next/extend%d/name-before-default" % (n - 1), bool(names_only),
+                  "the self-reference test compares the name in front of an optional `(default)`" if names_only else
+                  "RawParameters::next compares the whole text behind `$` with the key: `a=$a(5)` is not recognised as a "
+                  "self-reference any more, the caller's value for `a` is replaced by the reference and the default is used",
+                  cx.where(t["span"]))
             cx.ob("R-FORWARD-SELF", "next/extend%d/known-only" % (n - 1), bool(consults),
                   "a self-reference is dropped only when the caller has a value for it" if consults else
                   "RawParameters::next drops every argument forwarded under its own name, without asking whether the caller "
@@ -1202,12 +1226,36 @@ def r_normalize_keeps_separators(cx):
     for a, b in pairs:
         if a and a[0] in "\r\n" and a.rstrip(" ").endswith(":") and set(a) <= set("\r\n :"):
             n += 1
-            ok = bool(b) and b.isspace()
+            ok = bool(b) and b.isspace() and "\n" in b
             cx.ob("R-NORMALIZE-KEEPS-SEPARATORS", "normalize/continuation", ok,
                   "a continuation colon is replaced by white space" if ok else
                   "normalize replaces a continuation colon (%r) by %r: the words on both sides of the line break are glued "
                   "together, so a continuation line changes the meaning of the definition" % (a, b),
                   cx.where(cx.f.fn(base).d["span"]))
+    # ... and it is looked for after the line ends have been brought to `\n`: a colon behind a lone CR is a continuation
+    # marker too
+    for name in sorted(cx.f.lib["fns"]):
+        if not name.startswith("<T as token::Tokenize>::"):
+            continue
+        f = cx.f.fn(name)
+        crs, conts = [], []
+        for bb, t in f.calls():
+            if (f.callee(t) or "").rsplit("::", 1)[-1] == "replace" and len(f.arg_terms(bb)) == 3:
+                pat = mir.strip_refs(f.arg_terms(bb)[1])
+                if pat[0] == "const" and isinstance(pat[2], tuple) and len(pat[2]) == 2:
+                    pv = str(pat[2][1])
+                    if pv == "\r":
+                        crs.append(bb)
+                    if pv.startswith("\n") and pv.rstrip(" ").endswith(":"):
+                        conts.append((bb, t))
+        for cb, t in conts:
+            if crs:
+                n += 1
+                okc = all(f.dominates(x, cb) for x in crs)
+                cx.ob("R-NORMALIZE-KEEPS-SEPARATORS", "%s/continuation-after-line-ends" % name.rsplit("::", 1)[-1], okc,
+                      "continuation colons are looked for after the line ends were cleaned up" if okc else
+                      "%s looks for continuation colons before it has turned lone carriage returns into line feeds: with CR "
+                      "line ends the colon stays in the text and is glued to its neighbours" % name, cx.where(t["span"]))
     if n == 0:
         cx.ob("R-NORMALIZE-KEEPS-SEPARATORS", "normalize/none", True, "normalize trims no characters off the ends of the text",
               nontrivial=False)
